@@ -131,7 +131,7 @@ pub fn c10_checksum_diff_3() { differential::<3>() }
 pub fn c10_checksum_diff_5() { differential::<5>() }
 
 /// verify_checksum accepts s#checksum(s), returns s, and rejects any other 8 characters.
-// @h c10_verify_roundtrip timeout=3000 mem=10 tier=thorough
+// @h c10_verify_roundtrip timeout=3000 mem=10
 #[cfg_attr(kani, kani::proof)]
 #[cfg_attr(kani, kani::unwind(34))]
 pub fn c10_verify_roundtrip() {
